@@ -906,4 +906,72 @@ theorem reprOKKV_value : ∀ kvs, validKV kvs = true →
     simp [valueKV, reprOKKV, vkeys, keysOf, hvk, hb, reprOK_value v hv, h1, h2]
 end
 
+
+/-! ### every in-domain value has a valid (definite-length, smallest-head) wire tree -/
+
+theorem headOk_smallest (n : Nat) (h : n < 2 ^ 64) : headOk (smallestHead n) n = true := by
+  unfold smallestHead
+  split
+  · simp [headOk]; omega
+  · split
+    · simp [headOk]; omega
+    · split
+      · simp [headOk]; omega
+      · split
+        · simp [headOk]; omega
+        · simp [headOk]; omega
+
+theorem keyBytes_canon (k : V) : keyBytes (canon k) = vKeyBytes k := by
+  cases k <;> simp [canon, keyBytes, vKeyBytes]
+
+mutual
+theorem canon_ok : ∀ v, inDomain v = true →
+    valid (canon v) = true ∧ value (canon v) = v ∧ noIndefStr (canon v) = true
+  | .null, _ => by simp [canon, valid, value, noIndefStr]
+  | .bool _, _ => by simp [canon, valid, value, noIndefStr]
+  | .int i, h => by
+    simp only [inDomain, Bool.and_eq_true, decide_eq_true_eq] at h
+    have := headOk_smallest (if i < 0 then (-1 - i).toNat else i.toNat) (by split <;> omega)
+    simp [canon, valid, value, noIndefStr, this]
+    omega
+  | .float b, h => by
+    simp only [inDomain, decide_eq_true_eq] at h
+    simp [canon, valid, value, noIndefStr, h]
+  | .str s, h => by
+    simp only [inDomain, Bool.and_eq_true, decide_eq_true_eq] at h
+    simp [canon, valid, value, noIndefStr, headOk_smallest s.length (by omega), h.1, h.2]
+  | .bytes b, h => by
+    simp only [inDomain, decide_eq_true_eq] at h
+    simp [canon, valid, value, noIndefStr, headOk_smallest b.length (by omega), h]
+  | .arr xs, h => by
+    simp only [inDomain, Bool.and_eq_true, decide_eq_true_eq] at h
+    have ⟨h1, h2, h3, h4⟩ := canonL_ok xs h.2
+    simp [canon, valid, value, noIndefStr, h1, h2, h3, h4, headOk_smallest xs.length h.1]
+  | .map kvs, h => by
+    simp only [inDomain, Bool.and_eq_true, decide_eq_true_eq] at h
+    have ⟨h1, h2, h3, h4, h5⟩ := canonKV_ok kvs h.1.2
+    simp [canon, valid, value, noIndefStr, h1, h2, h3, h4, h5, h.2, headOk_smallest kvs.length h.1.1]
+theorem canonL_ok : ∀ xs, inDomainL xs = true →
+    validL (canonL xs) = true ∧ valueL (canonL xs) = xs ∧ (canonL xs).length = xs.length ∧
+      noIndefStrL (canonL xs) = true
+  | [], _ => by simp [canonL, validL, valueL, noIndefStrL]
+  | x :: xs, h => by
+    simp only [inDomainL, Bool.and_eq_true] at h
+    have ⟨a1, a2, a3⟩ := canon_ok x h.1
+    have ⟨b1, b2, b3, b4⟩ := canonL_ok xs h.2
+    simp [canonL, validL, valueL, noIndefStrL, a1, a2, a3, b1, b2, b3, b4]
+theorem canonKV_ok : ∀ kvs, inDomainKV kvs = true →
+    validKV (canonKV kvs) = true ∧ valueKV (canonKV kvs) = kvs ∧ (canonKV kvs).length = kvs.length ∧
+      keysOf (canonKV kvs) = vKeysOf kvs ∧ noIndefStrKV (canonKV kvs) = true
+  | [], _ => by simp [canonKV, validKV, valueKV, keysOf, vKeysOf, noIndefStrKV]
+  | (k, v) :: r, h => by
+    simp only [inDomainKV, Bool.and_eq_true] at h
+    obtain ⟨⟨⟨hk, hk2⟩, hv⟩, hr⟩ := h
+    have ⟨a1, a2, a3⟩ := canon_ok k hk2
+    have ⟨c1, c2, c3⟩ := canon_ok v hv
+    have ⟨b1, b2, b3, b4, b5⟩ := canonKV_ok r hr
+    simp [canonKV, validKV, valueKV, keysOf, vKeysOf, noIndefStrKV, keyBytes_canon, hk, a1, a2, a3, c1, c2, c3,
+      b1, b2, b3, b4, b5]
+end
+
 end Proofs.C16.Cbor
